@@ -30,3 +30,48 @@ pub fn dump(dir: &Path) {
         std::fs::write(f("ct.der"), ct).unwrap();
     }
 }
+
+/// Development-time: identity pairs colliding under a truncated std `DefaultHasher` (SipHash-1-3
+/// with the fixed zero key of `DefaultHasher::new()`), printed as JSON for tools/mk_collisions.py.
+pub fn siphash_collisions() {
+    use std::collections::hash_map::DefaultHasher;
+    use std::collections::HashMap;
+    use std::hash::{Hash, Hasher};
+    let word = |n: u64| -> String {
+        let al = b"abcdefghijklmnopqrstuvwxyz";
+        let mut x = n;
+        let mut s = String::new();
+        for _ in 0..6 {
+            s.push(al[(x % 26) as usize] as char);
+            x /= 26;
+        }
+        if n % 2 == 1 { format!("{s}@example.org") } else { format!("{s}{x}") }
+    };
+    let fams: Vec<(&str, Box<dyn Fn(&str) -> u32>)> = vec![
+        ("siphash13_slice_low32", Box::new(|s: &str| { let mut h = DefaultHasher::new(); s.as_bytes().hash(&mut h); h.finish() as u32 })),
+        ("siphash13_slice_high32", Box::new(|s: &str| { let mut h = DefaultHasher::new(); s.as_bytes().hash(&mut h); (h.finish() >> 32) as u32 })),
+        ("siphash13_write_low32", Box::new(|s: &str| { let mut h = DefaultHasher::new(); h.write(s.as_bytes()); h.finish() as u32 })),
+        ("siphash13_str_low32", Box::new(|s: &str| { let mut h = DefaultHasher::new(); s.hash(&mut h); h.finish() as u32 })),
+        ("siphash13_vec_fold32", Box::new(|s: &str| { let mut h = DefaultHasher::new(); s.as_bytes().to_vec().hash(&mut h); let v = h.finish(); (v ^ (v >> 32)) as u32 })),
+    ];
+    let mut out = serde_json::Map::new();
+    for (name, f) in fams {
+        let mut seen: HashMap<u32, String> = HashMap::new();
+        let mut pairs = vec![];
+        for n in 0..3_000_000u64 {
+            let w = word(n);
+            let h = f(&w);
+            if let Some(prev) = seen.get(&h) {
+                if *prev != w {
+                    pairs.push(serde_json::json!([prev, w]));
+                    if pairs.len() >= 2 {
+                        break;
+                    }
+                }
+            }
+            seen.insert(h, w);
+        }
+        out.insert(name.to_string(), serde_json::Value::Array(pairs));
+    }
+    println!("{}", serde_json::Value::Object(out));
+}
